@@ -25,7 +25,7 @@ TRUSTED_BASE = [
     "the Python correspondence harness, its generators and recorder (ordinary test code: they bound what the tie between model and /repo has seen)",
     "lean/Driver.lean and lean/DriverAlg.lean (parsing of the line protocol, binary64 arithmetic of the merit value, verdict strings): executed, not proved; scanned for the same forbidden constructs",
     "Lean's Float (+,-,*,/,sqrt) = hardware binary64 = numpy float64 scalar arithmetic; binary64 order = order of the integer keys (Model/Value.lean keyOfBits)",
-    "in the models of the five subproblem solvers np.sqrt, _alpha_tr, the floor of the sample count and the QR factorisation of the working set are oracles: the theorems state what they assume of them, DriverAlg runs the models with exactly checked proposals (which provably meet the assumptions other than those on the square root) and, for the loops of Alg/Ctcg, Alg/Ntcg*, Alg/CtcgImprove, pass by pass on re-tabulated states (driver code)",
+    "in the models of the five subproblem solvers np.sqrt, _alpha_tr, the floor of the sample count and the QR factorisation of the working set are oracles: the theorems state what they assume of them, DriverAlg runs the models with exactly checked proposals (which provably meet the assumptions: checked_spec, checkedProj_ok, checkedProjN_ok, checked_params_ok, checkedSqrtUp_up, checkedSqrt_pos) and, for the loops of Alg/Ctcg, Alg/Ntcg*, Alg/CtcgImprove, pass by pass on re-tabulated states (driver code)",
 ]
 
 
